@@ -26,6 +26,7 @@ type RunConfig struct {
 	TimeoutMs   int
 	Known       []KnownClass
 	MapOrderMax int
+	MapOrderSticky bool
 	Deadline    time.Time
 	AccessLog   bool
 	Trace       bool
@@ -124,6 +125,7 @@ func (ex *Exec) init(pr *Program, p *Path, cfg *RunConfig) {
 	ex.MaxDepth = cfg.MaxDepth
 	ex.MaxMake = cfg.MaxMake
 	ex.MapOrderMax = cfg.MapOrderMax
+	ex.MapOrderSticky = cfg.MapOrderSticky
 	ex.mutexes = map[*Value]*mutexSt{}
 	ex.builders = map[*Value]*[]*smt.Term{}
 	ex.wgs = map[*Value]*int{}
